@@ -129,9 +129,9 @@ def run(ctx):
     # the guards must see the caller's values: scheme methods hand keys/lists to the guarded cores unmodified
     from . import constructions as K
 
-    K.check_core_table(ctx, P, rule="E5.guards-see-inputs")
+    K.check_core_forwarding(ctx, P, rule="E5.guards-see-inputs")
     from . import flow as F
 
-    F.check_iszero(ctx, P, "E8.iszero", check_asserts=False)
+    F.check_iszero(ctx, P, "E8.iszero", check_asserts=False, need=("zero",))
     ctx.assume("Group::is_identity / Field::is_zero of the backend are correct (dependency contract)")
     ctx.assume("'imported from bytes' means the byte-conversion API (TryFrom<&[u8]>, from_be_bytes, from_le_bytes), as in observe_at; serde import of scalars is not claimed to reject zero")
